@@ -1036,6 +1036,11 @@ def common_summaries():
         o = as_enum(ex, st, deref(ex, st, argv[0]))
         return [(st, Bool(o.disc_bv() == (0 if fn.endswith('is_ok') else 1)))]
 
+    @reg(r'^(std::io::)?Read::take::<.*>$|^<.* as (std::io::)?Read>::take$')
+    def read_take(ex, st, fn, argv):
+        # io::Read::take: a reader that reports Ok(0) once `limit` bytes have been handed out - whether or not the inner reader has ended
+        return [(st, Agg({0: argv[0], 1: argv[1]}, 'std::io::Take'))]
+
     @reg(r'^(std::sync::|std::cell::|core::cell::)?(OnceLock|OnceCell)::<.*>::get_or_init::<')
     def once_get_or_init(ex, st, fn, argv):
         """a process-wide (or longer-lived) cell: either this call initialises it by running the closure, or an earlier call - with whatever
